@@ -22,8 +22,8 @@ RULE = ("spelling groups derived from the op table and the registries at run tim
         "(function, spelling set, option keys, operand kinds).")
 ASSUMPTIONS = ["the first listed spelling (mg.f) is the reference; spellings are compared with each other, not with NumPy (C03 does that)"]
 TIERS = {"quick": {"cases": 12000}, "thorough": {"cases": 400000}}
-FLOORS = {"quick": {"spellings_compared": 4000, "negative_checks": 50},
-          "thorough": {"spellings_compared": 20000, "negative_checks": 50}}
+FLOORS = {"quick": {"spellings_compared": 4000, "negative_checks": 50, "nondiff_type_checks": 2000, "nondiff_refused_nonconstant": 30},
+          "thorough": {"spellings_compared": 20000, "negative_checks": 50, "nondiff_type_checks": 10000, "nondiff_refused_nonconstant": 150}}
 
 GENS = [(B.g_unary, 12), (B.g_binary, 20), (B.g_matmul, 4), (B.g_reduce, 10), (B.g_cum, 3), (B.g_norm, 2), (B.g_einsum, 3), (B.g_where, 2),
         (B.g_clip, 3), (B.g_shape, 10), (B.g_join, 3), (B.g_repeat, 2)]
@@ -33,6 +33,13 @@ AUG_OPS = {"add": "+", "subtract": "-", "multiply": "*", "divide": "/", "power":
 def gen_case(rng, cfg, idx):
     if idx < 1:
         return {"kind": "negative"}
+    if idx % 6 == 5:
+        # the non-differentiable namesakes over C03's operand lattice: results must be plain NumPy objects, and the rounding/modulo
+        # family must refuse non-constant tensors (through np.f, mg.f, methods and operators alike)
+        from mgverif.props import C03
+        c = C03.gen_nondiff_case(rng)
+        c["kind"] = "nondiff"
+        return c
     for _ in range(30):
         b = B.Builder(rng, dtype=rng.choice(["float64", "float64", "float32"]))
         shape = B.rand_shape(rng, 3, 3, 1)
@@ -147,6 +154,16 @@ def ulp_close(a, b, ulps):
 def run_case(case):
     if case["kind"] == "negative":
         return run_negative()
+    if case["kind"] == "nondiff":
+        from mgverif.props import C03
+        r = C03.run_nondiff(case)
+        # C11 judges the kind of object returned and the refusals; value agreement with NumPy is C03's verdict
+        r["viol"] = [v for v in r.get("viol", []) if v["mech"].startswith(("nondiff-returns-tensor", "nondiff-accepts-nonconstant", "nondiff-raises",
+                                                                          "nondiff-records-consumer", "nondiff-leaves-lock"))]
+        c = r.get("counters", {})
+        r["counters"] = {"nondiff_type_checks": c.get("nondiff_compared", 0) + c.get("nondiff_compared_untracked", 0),
+                         "nondiff_refused_nonconstant": c.get("nondiff_refused_nonconstant", 0)}
+        return r
     st = case["prog"][case["ci"]]
     fn = st["fn"]
     pre = Interp("mg")
